@@ -3,7 +3,7 @@ from .histcommon import *
 ID = 'C07'
 LEVEL = 'model_checking'
 BUDGET = {'quick': 290, 'thorough': 3300}
-BOUNDS = {'quick': 'every frame/point-column/channel-column call in all histories of depth 2 (56 operations, 7 start states (6 in the quick tier)): object states declared/undeclared x rates set/unset x data present/absent, deviations one point/channel/frame/sub-frame too few/many, renamed (symbolic name, all names != labels), duplicated, empty',
+BOUNDS = {'quick': 'every frame/point-column/channel-column call (columns given as frames and, when frames exist, by name) in all histories of depth 2 (58 operations, 7 start states (6 in the quick tier)): object states declared/undeclared x rates set/unset x data present/absent, deviations one point/channel/frame/sub-frame too few/many, renamed (symbolic name, all names != labels), duplicated, empty',
           'thorough': 'depth 3'}
 OUTSIDE = 'deviations not in the alphabet (e.g. two deviations at once beyond those listed); sub-frame-count deviations of frame() (the documented contract is silent); histories deeper than the bound'
 ASSUMPTIONS = ['the contract model oracle/contract.py restates include/ezc3d.h:353-429 and the C07 statement; where several refusal reasons hold, any of their classes is accepted']
@@ -11,10 +11,10 @@ RULE = 'one evaluation = one history (path); each contains 2..3 calls judged aga
 CLASS = {0: 'accepted', 1: 'ios_base::failure', 2: 'invalid_argument', 3: 'out_of_range', 4: 'length_error', 5: 'range_error', 6: 'runtime_error', 7: 'logic_error', 8: 'bad_alloc', 9: 'std::exception'}
 
 def per_step(k, before, call, after, st, sec):
-    if call['call.kind'] not in (0, 1, 2): return []
+    if call['call.kind'] not in (0, 1, 2, 6, 7): return []
     A = contract.abstract(obsmodel.parse_dump(before))
     exp = contract.expect(A, call); out = call['call.outcome']
-    name = OP_NAMES.get(call['call.op']); kind = {0: 'frame', 1: 'point-column', 2: 'channel-column'}[call['call.kind']]
+    name = OP_NAMES.get(call['call.op']); kind = {0: 'frame', 1: 'point-column', 2: 'channel-column', 6: 'point-by-name', 7: 'channel-by-name'}[call['call.kind']]
     if exp[0] == 'any': return [Obl('contract/%s/unconstrained' % kind, False)]
     if exp[0] == 'accept':
         return [Obl('contract/%s/valid-call-refused' % kind, out != 0, '%s matches the declared shape but was refused with %s' % (name, CLASS.get(out)))]
